@@ -46,6 +46,12 @@ CLAIMED = {
     "C14": ("4 C14", "property-based testing (rapid): generated order-sensitive programs and template trees, each rendered N times in one process (fresh load per repetition via the reset hook) and in fresh processes; metamorphic oracle: all results identical",
             "Exploration: objects with 2..12 keys printed/dumped in 8 forms (literal and data, nested); object literals / component arguments / data maps with several simultaneous faults of different kinds; pages with several undefined inserts, duplicated or undeclared slots, two or three faulty files; each 24 (trees: 12) repetitions in process, a sample also in 3 fresh processes. With Go's per-iteration random map order a two-way order dependence survives 24 repetitions with probability 2^-23.",
             "Trusted: Go's map iteration randomisation as the source of divergence (a dependence on something that only differs between machines is out of reach). shuffle() and rand() are never generated. Scratch directory names are normalised in outcomes.", "exploration"),
+    "C15": ("4 C15", "generated concurrency plans (rapid generators sampled deterministically from the seed) executed under the Go race detector, plus differential comparison of every concurrent call with its sequential baseline",
+            "Exploration: 60 (quick) / 8 x 150 (thorough) plans of 2..16 goroutines x 5..40 calls over {String, Response, EvaluateString, EvaluateFile} x {ok, failing, not found} on a loaded directory (layout, component, loops, objects, custom functions) under 6 configurations, GOMAXPROCS in {2,4,16}, Gosched noise, each plan repeated 2..5 times. The race detector is happens-before based: an unsynchronised access pair is reported whenever both sides execute in a run, not only when the bad interleaving occurs. A race or a result that differs from the call run alone is a violation; the plan is the replay (re-run 50 times).",
+            "Trusted: the Go race detector (GORACE=halt_on_error=1; a reported race ends the process, the driver recovers the plan from the heartbeat and confirms by replaying). Interleavings are those the Go scheduler produces; they are not enumerated. A failure cannot be shrunk.", "exploration"),
+    "C20": ("4 C20", "rapid state machine (t.Repeat) over registry/call/load operations + exhaustive enumeration of histories up to length 3; oracle: reference registry model with recording closures, differential rendering of results against the same Go value passed as data",
+            "Exploration: random histories of Register*/call/LoadTemplates over names {f, g, own built-in, other type's built-in, function returning an unsupported kind} x five receiver types x 0..3 arguments of any kind (nested arrays/objects, nil), literal and variable form, direct and through a loaded template; all histories of length <= 3 over an 11-operation alphabet. Checked: duplicate registration rejected and never replaces; built-in wins; the closure of the first registration receives receiver/arguments as plain Go values; the result renders like the same value passed as data; unregistered name -> error naming function and receiver type.",
+            "Trusted: the reset hook (the registry cannot be emptied through the API), recording closures. Strings avoid < > & (literal escaping is C10's subject).", "exploration"),
     "C16": ("4 C16", "bounded exhaustive enumeration of operation histories + rapid random histories; oracle: every operation's result equals the same operation issued first after a fresh load (reset hook), configuration and caller data unchanged",
             "Exploration: all histories of length <= 2 (quick) / 3 (thorough) over 14 operation instances {String, Response, EvaluateString, EvaluateFile} x {succeeding, failing, not found} under 6 configurations (debug x custom error page none/working/missing/failing); random histories of length 4..40. Results compared: output, error message + line + path, Response body + returned error.",
             "Trusted: the reset hook gives the fresh-state baseline; scratch directory names are normalised. One fixed template directory (layout, component, loops, objects) is used: history independence is about call sequences, not template variety.", "exploration"),
